@@ -40,8 +40,8 @@ Fixpoint harvest (fuel : nat) (s0 : str) : list str :=
     let s := trim s0 in
     if starts (L "Result<") s then
       match strip_wrapped "Result<" s with
-      | Some inner => match find_char "," inner with
-                      | Some i => harvest f (trim (firstn i inner)) ++ harvest f (trim (skipn (S i) inner))
+      | Some inner => match find_top inner with
+                      | Some (a, r) => harvest f (trim a) ++ harvest f (trim r)
                       | None => harvest f inner           (* Result<T> through a one-argument alias: T is harvested *)
                       end
       | None => [] end
@@ -51,15 +51,15 @@ Fixpoint harvest (fuel : nat) (s0 : str) : list str :=
       match strip_wrapped "Vec<" s with Some inner => harvest f inner | None => [] end
     else if starts (L "HashMap<") s || starts (L "BTreeMap<") s then
       match (if starts (L "HashMap<") s then strip_wrapped "HashMap<" s else strip_wrapped "BTreeMap<" s) with
-      | Some inner => match find_char "," inner with
-                      | Some i => harvest f (trim (firstn i inner)) ++ harvest f (trim (skipn (S i) inner))
+      | Some inner => match find_top inner with
+                      | Some (a, r) => harvest f (trim a) ++ harvest f (trim r)
                       | None => [] end
       | None => [] end
     else if starts (L "HashSet<") s || starts (L "BTreeSet<") s then
       match (if starts (L "HashSet<") s then strip_wrapped "HashSet<" s else strip_wrapped "BTreeSet<" s) with
       | Some inner => harvest f inner | None => [] end
     else if starts (L "(") s && ends_with ")" s && negb (str_eqb s (L "()")) then
-      flat_map (fun p => harvest f (trim p)) (split_naive "," (mid 1 1 s))
+      flat_map (fun p => harvest f (trim p)) (split_top_level (mid 1 1 s))
     else if starts (L "&") s then harvest f (strip_amps s)
     else if custom_name s then [s] else []
   end.
